@@ -280,6 +280,52 @@ func rngdel(s: i32, m: i32, r: i32) => i32 {
 	return i32(rCount)
 }
 
+// rngins walks the map and, for visited keys whose index satisfies idx%%m == r,
+// inserts another key (index idx+shift) while walking.
+#wa:export rngins
+func rngins(s: i32, m: i32, r: i32, shift: i32, v: i32) => i32 {
+	for i := range seen {
+		seen[i] = 0
+	}
+	rCount, rDup, rBad = 0, 0, 0
+	rKeySum, rValSum = 0, 0
+	n := 0
+	for k, x := range ms[s] {
+		_ = x
+		i := keyIdx(k)
+		if i < 0 || i >= len(seen) {
+			rBad++
+			continue
+		}
+		if seen[i] != 0 {
+			rDup++
+		}
+		seen[i]++
+		rCount++
+		if i%%int(m) == int(r) && n < 8 {
+			n++
+			ms[s][mkKey((i+int(shift))%%len(seen))] = mkVal(int(v))
+		}
+	}
+	return i32(rCount)
+}
+
+// rngnest: a range loop over the map nested in a range loop over the same map.
+#wa:export rngnest
+func rngnest(s: i32) => i64 {
+	outer: i64 = 0
+	inner: i64 = 0
+	for k1, x1 := range ms[s] {
+		_ = x1
+		outer += i64(keyIdx(k1) + 1)
+		for k2, x2 := range ms[s] {
+			_ = x2
+			inner += i64(keyIdx(k1)+1) * i64(keyIdx(k2)+1)
+		}
+	}
+	return outer*1000003 + inner
+}
+
 #wa:export rget
 func rget(what: i32) => i64 {
 	switch what {
